@@ -544,6 +544,8 @@ func runOne(t *testing.T, run *vh.Run, r *vh.Rand, c *Case, exhaustiveLimit int)
 		codecCase(t, run, c)
 	case "mutate":
 		mutateCase(t, run, c)
+	case "oversize":
+		oversizeCase(run, c)
 	}
 }
 
@@ -596,6 +598,9 @@ func TestCheck(t *testing.T) {
 		}
 		// codec differential and prefix/corruption classes
 		codecAll(t, run, r.Fork(), env)
+		// records over the 4 MiB framing limit (known finding)
+		oversizeCase(run, &Case{Kind: "oversize", Store: storeSilence})
+		oversizeCase(run, &Case{Kind: "oversize", Store: storeNflog})
 	}
 	if err := run.Finish("E-fs: strace of the real Maintenance shutdown snapshot (both stores, chains of restarts in one data dir, initial files in the old format) compared with snapshot_ops; every crash image of the recorded sequence (exhaustive up to 400 un-synced bytes, sampled beyond) loaded by the real New; codec differential Wire.v vs protobuf-go on real Snapshot output and on generated records; every strict prefix and sampled 1-byte corruptions through the real loader. non-trivial = COps, CCrash with > 3 points, codec cases with >= 1 record"); err != nil {
 		t.Fatal(err)
